@@ -99,14 +99,23 @@ def r1(ctx):
                     # the snprintf contract written out: a count cut to what fits (n = min(n, len - 1)) and a terminator at that count
                     LEN = ("arg", lenarg)
                     nz = es.Guards(fn, i).ne(LEN, ("c", 0)) or es.Guards(fn, i).lt(("c", 0), LEN)
+                    G = es.Guards(fn, i)
+
+                    def below(e, slack):
+                        """e <= len - slack; 'count - 1' with the count tested to be non-zero (no wrap-around) needs one less of the count,
+                        and a non-zero count that is at most len says that len is not zero"""
+                        if e[0] == "bin" and ((e[1] == "sub" and e[3] == ("c", 1)) or (e[1] == "add" and e[3] == ("c", -1))) and e[2] != LEN and \
+                                (G.ne(e[2], ("c", 0)) or G.lt(("c", 0), e[2])):
+                            return _at_most_len(fn, e[2], lenarg, max(0, slack - 1))
+                        return nz and _at_most_len(fn, e, lenarg, slack)
                     if kind == "memcpy":
                         sz = vf.expr(fn, i.args[2])
-                        good = nz and vf.expr(fn, i.args[0]) == BUF and _at_most_len(fn, sz, lenarg, 0)
+                        good = vf.expr(fn, i.args[0]) == BUF and below(sz, 0)
                         why = "copies %s bytes to the start of the buffer; bounded by len: %s (len != 0: %s)" % (vf.show(sz), good, nz)
                     elif kind == "store" and i.get("size", 1) == 1:
                         pe = vf.expr(fn, i["ptr"])
                         ix = pe[2] if pe[0] in ("ptradd", "idx") and pe[1] == BUF else (("c", 0) if pe == BUF else None)
-                        good = nz and ix is not None and _at_most_len(fn, ix, lenarg, 1)
+                        good = ix is not None and below(ix, 1)
                         why = "one byte at buffer[%s]; index below len: %s (len != 0: %s)" % (vf.show(ix) if ix else "?", good, nz)
             ctx.check(good, "C19.R1", "%s:write@%d" % (fname, n), i.loc(), why, key="C19.R1:%s:%s" % (fname, kind))
         # longest output from the format strings
@@ -255,6 +264,17 @@ def r2(ctx, retsets):
     out_stores = [i for i in fn.all_insts() if i.op == "store" and vf.root_of(vf.expr(fn, i["ptr"])) == ("arg", 1)]
     if not out_stores:
         raise AnalysisBroken("no store to the result address")
+    for L in es.index_loops(fn):
+        if any(es.in_loop_body(L, s_) for s_ in out_stores) and L["bound"][0] != "c":
+            raise AnalysisBroken("lrtr_ipv6_str_to_addr: the loop that assembles the address runs to a bound chosen at run time (%s), not over the "
+                                 "four words: the cells on the number of groups are written for the parser that always fills eight groups" % vf.show(L["bound"]))
+    for i in fn.all_insts():
+        if i.op == "icmp" and i["pred"] in ("eq", "ne"):
+            a, b = vf.expr(fn, i["a"]), vf.expr(fn, i["b"])
+            for x, y in ((a, b), (b, a)):
+                if x[0] == "phi" and x[1] in cnt and y[0] == "phi" and y[1] not in hf and {vf.expr(fn, v)[0] for v, bb in fn.insts[y[1]]["inc"]} == {"c"}:
+                    raise AnalysisBroken("lrtr_ipv6_str_to_addr: the number of groups is compared with a number chosen at run time (line %d), not with 8: "
+                                         "the cells 'eight groups' / 'fewer than eight' cannot be set from outside" % i.line)
     for have_fill, count8 in ((False, False), (False, True), (True, False)):
         def oracle(inst, pred, a, b, E):
             for x, y, sw in ((a, b, False), (b, a, True)):
